@@ -1,16 +1,22 @@
 // C02 correspondence harness: the simulated TPM of
 // pkg/bootflow/subsystems/trustchains/tpm against Model/TPM.v.
 //
-// A case is the whole life of ONE *tpm.TPM object: several sub-histories
-// separated by Reset() / DoNotUse_ResetNoInit(); two thirds of the cases run on
-// an object shared by all of them (so buffers and pooled hashers recycled from
-// earlier cases are in play).  After EVERY command the harness records the error
-// class, PCRValues.Get over a fixed grid, SupportedAlgos, and length + structural
-// digest of CommandLog and EventLog (the full logs at the end of each sub-history).
+// A sequential case is the whole life of ONE *tpm.TPM object: several
+// sub-histories separated by Reset() / DoNotUse_ResetNoInit(); two thirds of the
+// cases run on an object shared by all of them (so buffers and pooled hashers
+// recycled from earlier cases are in play).  After EVERY command the harness
+// records the error class, PCRValues.Get over a fixed grid, SupportedAlgos, and
+// length + structural digest of CommandLog and EventLog (the full logs at the end
+// of each sub-history).
+//
+// About every tenth case drives SEVERAL objects at the same time, one goroutine
+// per object, under a recorded deterministic schedule (conc.go): the pools of
+// hashers are shared by all TPM objects of the process, the property is about
+// each object's own history.
 //
 // The independent oracle is refTPM below: a reference TPM written from the
 // property text (map of banks, crypto/sha1, crypto/sha256), compared with the
-// implementation after every command.
+// implementation after every command of every object.
 package main
 
 import (
@@ -814,7 +820,6 @@ func main() {
 		runCase(c, kind, t, hist, segEnd)
 	}
 
-	fmt.Println("conc time", concT)
 	c.Finish("each sequential case = whole life of one *TPM (1-3 sub-histories of 0..40 commands separated by Reset / ResetNoInit[+Startup]; 2/3 of the cases reuse one shared object); " +
 		"commands startup/extend/eventlogadd/reset/reset-no-init, alg in {4,0xB,0xC,0,5,0xFFFE,0xFFFF,other hash ids,0..11,random 16-bit}, pcr in {0,1,2,255,random}, " +
 		"digest length in {hash size,0,19,20,21,32,random<=64}, 256-case locality sweep; observed after every command; " +
